@@ -211,6 +211,16 @@ pub fn cases_of_uni(u: i32, tier: &str, seed: u64, emit: &mut dyn FnMut(String, 
             let c = redescribe(&base, &mut crng, lvl, None).cant_moments(&mut crng, 6.0 * m, 0.3 * m.sqrt());
             emit(format!("u{}-{}-cant", u, ct), &c, symprec, Some(m));
         }
+        // noise well inside the tolerances (5 % of symprec on positions and lattice, 5 % of mag_symprec on moments): the
+        // generating group is still the truth; the standardized cell must come out exactly symmetric all the same
+        let noisy = if thorough { !huge && (ci == 2 || ci == 3) } else { s3 % 3 == 1 && !huge };
+        if noisy {
+            let mut nrng = rng.fork();
+            let m = *nrng.pick(&[1e-4, 3e-4]);
+            let lvl = nrng.range(0, 2) as u32;
+            let c = redescribe(&base, &mut nrng, lvl, None).noisy(&mut nrng, 0.05 * symprec, 0.05 * m);
+            emit(format!("u{}-{}-noisy", u, ct), &c, symprec, Some(m));
+        }
         if sup {
             let idx = rng.range(2, if thorough { 4 } else { 3 }) as i32;
             let all = hnfs_of_index(idx);
